@@ -1,2 +1,18 @@
-CHECKS = {}
+CHECKS = {
+ "C10": dict(
+  text=("Lean 4 theorems over the model of FilePos/FileText slicing, _split_code_lines and the .statements "
+        "normalisation: for every text and every well-placed list of node positions the pieces concatenate to the "
+        "text (C10_lossless, C10_statements_lossless), no assertion/IndexError branch is reachable (C10_total), node "
+        "pieces start at their node (C10_positions), every node owns exactly one piece in order (C10_one_node), "
+        "non-leading nodeless pieces are whole comment/blank lines (C10_noncode), startpos+delta is the true "
+        "position (Pos.add_true).  The model is tied to the code by a differential run (thousands of generated "
+        "texts, an exhaustive small scope of line templates, stdlib/site-packages files) and a direct oracle "
+        "(concatenation, ast.parse of every piece equals the statement, true positions, literal positions)."),
+  note=("Trusted: Lean kernel + propext/Classical.choice/Quot.sound; hand-written model (lean/Pfb/Text.lean, "
+        "lean/Pfb/C10/Model.lean) validated by correspondence only; CPython's parser for node positions, "
+        "'parses to the same tree' and literal positions (oracle, not theorem); _annotate_ast_startpos is not "
+        "modelled (its output is a model input recomputed independently from stdlib ast)."),
+  technique="Lean 4 proof (induction over the node list, offset/extract algebra) + model/implementation differential check + CPython oracle",
+ ),
+}
 NOT_APPLICABLE = {}
